@@ -133,12 +133,97 @@ theorem parseCompiled_total (ty : PType) (c : Compiled) (l : Text) (h : c.steps.
       | none => exact ⟨_, rfl⟩
       | some v => dsimp only; split <;> exact ⟨_, rfl⟩
 
+/-- segments all of whose steps are modelled -/
+def segOK : Seg → Bool
+  | .plain ss => ss.all stepModelled
+  | .date c => c.steps.all stepModelled
+  | .time c => c.steps.all stepModelled
+
+theorem dtValueE_total (tm : Tmpl) (used : Nat) (b : Bucket) : ∃ r, dtValueE tm used b = .ok r := by
+  unfold dtValueE
+  dsimp only
+  split
+  · exact ⟨_, rfl⟩
+  · split
+    · exact ⟨_, rfl⟩
+    · split
+      · split
+        · exact ⟨_, rfl⟩
+        · split
+          · exact ⟨_, rfl⟩
+          · rename_i e hne he
+            exact absurd (plusOneDay_error _ _ _ e he) hne
+          · exact ⟨_, rfl⟩
+      · exact ⟨_, rfl⟩
+
+/-- the parse actions of a segmented LocalDateTime pattern (embedded patterns included) return a result value -/
+theorem parseSegs_total (tm : Tmpl) (cu : Culture) : ∀ (segs : List Seg) (l : Text) (b : Bucket),
+    segs.all segOK = true → ∃ r, parseSegs tm cu segs l b = .ok r := by
+  intro segs
+  induction segs with
+  | nil => intro l b _; exact ⟨_, rfl⟩
+  | cons sg segs ih =>
+    intro l b h
+    simp only [List.all_cons, Bool.and_eq_true] at h
+    cases sg with
+    | plain ss =>
+      unfold parseSegs
+      obtain ⟨r, hr⟩ := parseSteps_total cu ss l b h.1
+      rw [hr]
+      cases r with
+      | none => exact ⟨_, rfl⟩
+      | some p => obtain ⟨b', l'⟩ := p; exact ih l' b' h.2
+    | date c =>
+      unfold parseSegs
+      obtain ⟨r, hr⟩ := parseSteps_total c.cu c.steps l dateBucket0 h.1
+      rw [hr]
+      cases r with
+      | none => exact ⟨_, rfl⟩
+      | some p =>
+        obtain ⟨bi, l'⟩ := p
+        dsimp only
+        cases dateValueT tm.y tm.m tm.d c.used bi with
+        | none => exact ⟨_, rfl⟩
+        | some v => obtain ⟨y, m, d⟩ := v; exact ih _ _ h.2
+    | time c =>
+      unfold parseSegs
+      obtain ⟨r, hr⟩ := parseSteps_total c.cu c.steps l (timeBucket0 tm.nod) h.1
+      rw [hr]
+      cases r with
+      | none => exact ⟨_, rfl⟩
+      | some p =>
+        obtain ⟨bi, l'⟩ := p
+        dsimp only
+        cases timeValue tm.nod c.used bi with
+        | none => exact ⟨_, rfl⟩
+        | some t => exact ih _ _ h.2
+
+theorem parseSegmented_total (tm : Tmpl) (cu : Culture) (used : Nat) (segs : List Seg) (l : Text)
+    (h : segs.all segOK = true) : ∃ r, parseSegmented tm cu used segs l = .ok r := by
+  unfold parseSegmented
+  split
+  · exact ⟨_, rfl⟩
+  · obtain ⟨r, hr⟩ := parseSegs_total tm cu segs l (dtBucket0 tm) h
+    rw [hr]
+    cases r with
+    | none => exact ⟨_, rfl⟩
+    | some p =>
+      obtain ⟨b, rest⟩ := p
+      dsimp only
+      obtain ⟨o, ho⟩ := dtValueE_total tm used b
+      rw [ho]
+      cases o with
+      | none => exact ⟨_, rfl⟩
+      | some v => dsimp only; split <;> exact ⟨_, rfl⟩
+
 mutual
-/-- pattern objects all of whose stepped parts consist of modelled steps -/
+/-- pattern objects (stepped, `Z`-prefixed, composite) all of whose stepped parts consist of modelled steps; segmented
+    LocalDateTime patterns have their own statement (`parseSegmented_total`) -/
 def patOK : Pat → Bool
   | .stepped c => c.steps.all stepModelled
   | .zprefix p => patOK p
   | .composite ps => patsOK ps
+  | .segmented _ _ _ => false
 def patsOK : List Pat → Bool
   | [] => true
   | p :: ps => patOK p && patsOK ps
@@ -159,6 +244,7 @@ theorem parsePat_total (ty : PType) (l : Text) : ∀ p : Pat, patOK p = true →
       split
       · exact ⟨_, rfl⟩
       · exact parsePats_total ty l ps h
+  | .segmented _ _ _, h => by simp [patOK] at h
 theorem parsePats_total (ty : PType) (l : Text) : ∀ ps : List Pat, patsOK ps = true → ∃ r, parsePats ty l ps = .ok r
   | [], _ => by rw [parsePats]; exact ⟨_, rfl⟩
   | p :: ps, h => by
@@ -635,6 +721,7 @@ theorem parsePat_offset_valid (l : Text) : ∀ (p : Pat) (v : List Int), parsePa
       split at h
       · cases h
       · exact parsePats_offset_valid l ps v h
+  | .segmented _ _ _, v, h => by simp only [parsePat] at h; cases h
 theorem parsePats_offset_valid (l : Text) : ∀ (ps : List Pat) (v : List Int), parsePats .offset l ps = .ok (some v) →
     ∃ s, v = [s] ∧ -64800 ≤ s ∧ s ≤ 64800
   | [], v, h => by rw [parsePats] at h; cases h
